@@ -125,3 +125,15 @@ impl Src for ByteSrc {
         }
     }
 }
+
+thread_local! {
+    static FAILED: std::cell::RefCell<Vec<&'static str>> = const { std::cell::RefCell::new(Vec::new()) };
+}
+/// Native replay: a `check!` was violated.
+pub fn note_failure(label: &'static str) {
+    FAILED.with(|f| f.borrow_mut().push(label));
+}
+/// Native replay: the labels of all violated `check!`s so far.
+pub fn take_failures() -> Vec<&'static str> {
+    FAILED.with(|f| std::mem::take(&mut *f.borrow_mut()))
+}
